@@ -324,6 +324,14 @@ example : ∃ text, save F64.ops true (.obj [([97], .arr [.num one, .str [120, 1
 
 example : NumIdem (fun x => x = one) id := fun x hx => ⟨hx, rfl⟩
 
+/-! ### the parser accepts a superset of RFC 8259 (allowed by the property; recorded, not alarmed on) -/
+
+/-- `[1,]`, `01`, `1.`, `-.5`, a `//` comment: accepted by the model exactly as by the code -/
+example : (parse F64.ops [91, 49, 44, 93]).isSome = true ∧ (parse F64.ops [48, 49]).isSome = true ∧
+    (parse F64.ops [49, 46]).isSome = true ∧ (parse F64.ops [45, 46, 53]).isSome = true ∧
+    (parse F64.ops [47, 47, 120, 10, 49]).isSome = true ∧ (parse F64.ops [43, 49]).isSome = false := by
+  decide +kernel
+
 /-- `int_extraction_exact_or_throws` is not vacuous: 127.0 as `signed char`, 128.0 throws -/
 example : getInt (-128) 127 0x405FC00000000000 = some 127 ∧ getInt (-128) 127 0x4060000000000000 = none := by
   decide +kernel
